@@ -127,7 +127,7 @@ func c10MkWeird() Object {
 //verif:timeout 600 3600
 //verif:maxpaths 400000 4000000
 //verif:runinit github.com/go-python/gpython/py.init@type.go:1 github.com/go-python/gpython/py.init@exception.go:1
-//verif:havoc math.Pow math.Mod math/cmplx.Pow math.Exp math.Log math.Sincos math.Sin math.Cos math.Atan2
+//verif:havoc math.Pow math.Mod math/cmplx.Pow math.Exp math.Log math.Sincos math.Sin math.Cos math.Atan2 strconv.FormatFloat strconv.AppendFloat strconv.ParseFloat
 //verif:expect called
 func VerifC10WeirdUnary() {
 	w := c10MkWeird()
@@ -143,7 +143,7 @@ func VerifC10WeirdUnary() {
 //verif:timeout 600 3600
 //verif:maxpaths 600000 6000000
 //verif:runinit github.com/go-python/gpython/py.init@type.go:1 github.com/go-python/gpython/py.init@exception.go:1
-//verif:havoc math.Pow math.Mod math/cmplx.Pow math.Exp math.Log math.Sincos math.Sin math.Cos math.Atan2
+//verif:havoc math.Pow math.Mod math/cmplx.Pow math.Exp math.Log math.Sincos math.Sin math.Cos math.Atan2 strconv.FormatFloat strconv.AppendFloat strconv.ParseFloat
 //verif:expect called
 func VerifC10WeirdBinary() {
 	w := c10MkWeird()
@@ -164,7 +164,7 @@ func VerifC10WeirdBinary() {
 //verif:timeout 600 3600
 //verif:maxpaths 400000 4000000
 //verif:runinit github.com/go-python/gpython/py.init@type.go:1 github.com/go-python/gpython/py.init@exception.go:1 github.com/go-python/gpython/py.init@list.go:1 github.com/go-python/gpython/py.init@string.go:1
-//verif:havoc math.Pow math.Mod
+//verif:havoc math.Pow math.Mod strconv.FormatFloat strconv.AppendFloat strconv.ParseFloat
 //verif:expect called
 func VerifC10WeirdInContainers() {
 	w := c10MkWeird()
